@@ -961,6 +961,19 @@ theorem C19_graph_check_sees_cross_thread_dirty :
   decide
 
 set_option maxRecDepth 100000 in
+/-- a `get` overlapping a `set` (F-C19-3's cause, as seen by the reader): `sum = m0 + m1`,
+`m0 = s + 1`, `m1 = s + 2`; thread 0's recomputation of `sum` reads `m0` (from `s = 1`), thread 1
+sets 5, thread 0 reads `m1` (from `s = 5`) and returns `2 + 7 = 9` — a value of no sequential order
+(5 or 13).  `sum` is marked dirty again by the write, so the read-back gives 13.
+Replayed on the real code by corpus/C19/graph.ops (`torn-read`). -/
+theorem C19_graph_torn_read_witness :
+    let g : List Def := [{ f := .add 1, reads := [.sig] }, { f := .add 2, reads := [.sig] },
+      { f := .plus, reads := [.memo 0, .memo 1] }]
+    let s := run (init g true false [[.get 2], [.set 5]]) ([0, 0, 0, 0] ++ tail 2)
+    (s.ts 0).results = [.val 9] ∧ ((readAll s).ts 2).results = [.val 6, .val 7, .val 13] := by
+  decide
+
+set_option maxRecDepth 100000 in
 /-- the single-threaded way into the same re-check: an unchanged intermediate read first -/
 example :
     let coarse : List Def := [{ f := .add 0, reads := [.sig] }, { f := .div 100, reads := [.memo 0] },
